@@ -383,6 +383,17 @@ func c14EvalInner(cs c14Case) (string, string) {
 		if string(s.Write()) != cs.Text || string(b.Write()) != cs.Text || s.String() != cs.Text {
 			return "C14/string-roundtrip", cs.Text
 		}
+		// a string value is a value: read from a scratch buffer that is then used for something else, it keeps
+		// what it read
+		scratch := []byte(cs.Text)
+		var s2 quickfix.FIXString
+		s2.Read(scratch)
+		for i := range scratch {
+			scratch[i] = 'Z'
+		}
+		if s2.String() != cs.Text || string(s2.Write()) != cs.Text {
+			return "C14/string-shares-the-bytes-it-was-read-from", fmt.Sprintf("read %q, the source bytes were overwritten afterwards, the value is now %q", cs.Text, s2.String())
+		}
 	}
 	return "", ""
 }
